@@ -1,6 +1,7 @@
 package checks
 
 import (
+	"errors"
 	"fmt"
 	"reflect"
 
@@ -82,4 +83,62 @@ func c12Deep(rep *vk.Report, base int) {
 			}
 		}
 	}
+}
+
+// c12RandomTrees: random error trees (wrap, join, multi-%w to depth 4 over the leaf universe) x random condition lists,
+// observed through a fallback and a breaker; expected value from the statement's rule.
+func c12RandomTrees(rep *vk.Report, base, n int) {
+	leaves := []error{errE1, errE2, errE3, valErr{4}, &ptrErr{4}, isE1{}}
+	kinds := []string{"E", "EE", "Tv", "Tvp", "Tp", "Tpv", "TT", "R", "I"}
+	vk.Parallel(n, 16, func(i int) {
+		idx := base + i
+		if rep.Skip(idx) {
+			return
+		}
+		r := vk.Rng(rep.Seed, "C12t", idx)
+		var build func(d int) (error, string)
+		build = func(d int) (error, string) {
+			if d == 0 || r.IntN(3) == 0 {
+				l := leaves[r.IntN(len(leaves))]
+				return l, fmt.Sprintf("%T", l)
+			}
+			switch r.IntN(3) {
+			case 0:
+				e, s := build(d - 1)
+				return fmt.Errorf("w: %w", e), "wrap(" + s + ")"
+			case 1:
+				a, sa := build(d - 1)
+				b, sb := build(d - 1)
+				return errors.Join(a, b), "join(" + sa + "," + sb + ")"
+			default:
+				a, sa := build(d - 1)
+				b, sb := build(d - 1)
+				return fmt.Errorf("m: %w and %w", a, b), "multi(" + sa + "," + sb + ")"
+			}
+		}
+		err, shape := build(1 + r.IntN(4))
+		var cs condSet
+		for k := r.IntN(4); k >= 0; k-- {
+			cs = append(cs, kinds[r.IntN(len(kinds))])
+		}
+		res := []int{0, 7, 9}[r.IntN(3)]
+		want := cs.isFailure(res, err)
+		fbb := fallback.BuilderWithResult[int](-1)
+		applyHandle[fallback.FallbackBuilder[int]](fbb, cs)
+		applied := false
+		fbb.OnFallbackExecuted(func(failsafe.ExecutionDoneEvent[int]) { applied = true })
+		failsafe.Get(func() (int, error) { return res, err }, fbb.Build())
+		cbb := circuitbreaker.Builder[int]().WithFailureThreshold(100)
+		applyHandle[circuitbreaker.CircuitBreakerBuilder[int]](cbb, cs)
+		cb := cbb.Build()
+		failsafe.Get(func() (int, error) { return res, err }, cb)
+		rep.Eval()
+		if applied != want || (cb.Metrics().Failures() == 1) != want {
+			rep.Violate(idx, "C12/random-tree-mismatch", fmt.Sprintf("conditions %v, outcome (%d, %s): fallback applied=%v breaker failure=%v, rule says %v", []string(cs), res, shape, applied, cb.Metrics().Failures() == 1, want), map[string]any{"conditions": cs, "error_shape": shape, "result": res})
+			return
+		}
+		if i%7 == 0 {
+			rep.Distinct(fmt.Sprintf("tree|%v|%s", cs, shape))
+		}
+	})
 }
